@@ -35,3 +35,5 @@ func Body(b []byte) io.ReadCloser {
 
 // BodyReads reports how many times the last Body was read from (0: never touched).
 func BodyReads() int { return bodyReads }
+
+func bytesReader(b []byte) *bytes.Reader { return bytes.NewReader(b) }
